@@ -98,6 +98,18 @@ def _judge(ctx, rid: str, kind: str) -> List[R.Inst]:
             if not tags:
                 continue
             t = tags[0]
+            if s.what.startswith("groupby(") and s.what.endswith("sort=False)"):
+                gk = s.what[8:].split(",")[0]
+                if t.kind == "sorted" and t.key == gk:
+                    insts.append(R.ok(rid, key, file, s.line, idiom=f"{s.what} on a frame sorted by the group key"))
+                elif t.kind == "top":
+                    insts.append(R.adv(rid, key, file, s.line, f"order of '{s.operands[0][:60]}' not resolved"))
+                else:
+                    insts.append(R.viol(rid, key, file, s.line,
+                                        f"'{s.what}' yields the groups in order of first appearance; the frame is {t}, so which "
+                                        f"'{gk}' group comes first depends on the row order of the list (rows that tie on the sort key "
+                                        f"keep their list order)", construct=f"{s.what} on {t}"))
+                continue
             if t.kind == "top":
                 insts.append(R.adv(rid, key, file, s.line, f"order of '{s.operands[0][:60]}' not resolved"))
             elif t.ordered:
